@@ -57,6 +57,10 @@ class Gen:
             i = rng.randrange(1, len(t.cols))
             sets = [(i, G.rand_lit(rng, t.cols[i][1], 0.2))]
             where = ("bin", "<", ("col", 0), G.lit_int(rng.randint(1, self.next_id + 1))) if rng.random() < 0.7 else None
+            if (t.name, t.cols[i][0]) in getattr(self, "unique_cols", set()):
+                # UPDATE of a uniquely indexed column: the index is not maintained (recorded finding, pinned by a suite
+                # test), so duplicates are accepted or the statement fails half-way and its rewritten rows stay
+                self.classes.add("update-of-indexed-column")
             return G.update_sql(t, sets, where), G.update_coq(t, sets, where), "update"
         where = ("bin", rng.choice(["<", ">="]), ("col", 0), G.lit_int(rng.randint(1, self.next_id + 1))) if rng.random() < 0.8 else None
         return G.delete_sql(t, where), G.delete_coq(t, where), "delete"
@@ -105,11 +109,13 @@ class Gen:
             if in_session and not commits:
                 self.classes.add("schema-update-in-aborted-transaction")
             self.next_ix = getattr(self, "next_ix", 0) + 1
+            self.unique_cols = getattr(self, "unique_cols", set()) | {(t.name, t.cols[i][0])}
             return ("CREATE UNIQUE INDEX ix%d ON %s(%s)" % (self.next_ix, t.name, t.cols[i][0]),
                     "SCreateUnique %d [%d%%nat]" % (t.tid, i), False)
         sql, coq, kind = self.dml(t, in_session)
         if kind == "update" and in_session and not commits:
             self.classes.add("update-in-aborted-transaction")
+
         return sql, coq, True
 
     def observe(self):
@@ -155,6 +161,7 @@ def gen_case(rng, feats):
                 if len(t.cols) > 1:
                     i = rng.randrange(1, len(t.cols))
                     g.next_ix = getattr(g, "next_ix", 0) + 1
+                    g.unique_cols = getattr(g, "unique_cols", set()) | {(t.name, t.cols[i][0])}
                     h.x("CREATE UNIQUE INDEX ix%d ON %s(%s)" % (g.next_ix, t.name, t.cols[i][0]), "SCreateUnique %d [%d%%nat]" % (t.tid, i))
             else:
                 if name in view:
